@@ -487,6 +487,9 @@ def gen(seed) -> dict:
                     if multi:
                         st["tpl"] = g.choice(multi)
                         st["retry_after"] = g.choice([x for x in SCHEMAS if x != st["S"]] + ["none"])
+                if prog and g.random() < 0.3 and "retry_after" not in st:
+                    # the same statement text again, later in this process, under another default (text-keyed caches)
+                    st["tpl"] = g.choice(prog)["tpl"]
                 prog.append(st)
             threads.append(prog)
         if g.random() < 0.6:
@@ -511,7 +514,7 @@ def gen(seed) -> dict:
     return {
         "seed": seed, "pre_env": ({ENVVAR: pre} if pre else {}), "hash_seed": g.choice([0, 1]), "threads": threads, "operator": operator,
         "sched": g.choice(["random", "sticky", "pct1", "pct2", "pct3", "retbias"]), "line": g.random() < 0.7,
-        "gran": g.choice(["line", "line", "line", "line", "line", "instr"]),
+        "gran": g.choice(["line"] * 11 + ["instr"]),
     }
 
 
@@ -554,7 +557,7 @@ def search(pool, tier: str, seed: int, deadline: float, agg: Agg) -> None:
     search.refs = refs
     master = stream(seed, "c14-plan")
     specs = sweep()
-    n = {"quick": 2000, "thorough": 40000}[tier]
+    n = {"quick": 1300, "thorough": 40000}[tier]
     specs += [gen(master.randrange(2 ** 48)) for _ in range(n)]
     specs += [gen_sweep(master.randrange(2 ** 48)) for _ in range({"quick": 10, "thorough": 1000}[tier])]
     # group by zygote key, blocks of 4
@@ -563,8 +566,10 @@ def search(pool, tier: str, seed: int, deadline: float, agg: Agg) -> None:
         by.setdefault(json.dumps(key_of(s), sort_keys=True), []).append(s)
     units = []
     for k, lst in by.items():
-        for i in range(0, len(lst), 4):
-            units.append((json.loads(k), [_with_refs(s, refs) for s in lst[i:i + 4]]))
+        # one simulated run per fork: a run must carry its whole process history itself (a violation that needs
+        # something an EARLIER spec of the same child did would not replay from its own file)
+        for i in range(0, len(lst), 1):
+            units.append((json.loads(k), [_with_refs(s, refs) for s in lst[i:i + 1]]))
     units.sort(key=lambda u: u[1][0]["seed"] % 97)
     jobs = [job(mod, k, sp, 300.0) for k, sp in units]
     agg.planned = len(specs)
